@@ -3,7 +3,8 @@
 From Coq Require Import List Arith NArith Bool Lia.
 From NngV Require Import Gen.Consts Base.ListX Base.Bytes Codec.Staged Codec.WsFrameModel Codec.WsMsgModel
   Codec.ChunkedModel Codec.B64Model Codec.HttpLineModel Codec.CodecSpec
-  Codec.HttpBufModel Codec.WsProofs Codec.ChunkedProofs Codec.HttpProofs Codec.HttpBufProofs Codec.B64Proofs.
+  Codec.HttpBufModel Codec.WsProofs Codec.ChunkedProofs Codec.HttpProofs Codec.HttpBufProofs Codec.B64Proofs
+  Codec.HttpIov Codec.HttpIovProofs.
 Import ListNotations.
 Local Open Scope N_scope.
 
@@ -125,6 +126,31 @@ Theorem http_rdbuf_test_before_pullup_refuted :
      get_status (rd_conn r) = 200).
 Proof. exact test_before_pullup_depends_on_cuts. Qed.
 Print Assumptions http_rdbuf_test_before_pullup_refuted.
+
+(* ---- reads with several io-vector elements (nng_http_read_all / nng_http_read, HTTP_RD_FULL / RAW) ----
+   Codec/HttpIov.v: part of the read is served from the connection's read buffer, the used-up
+   elements are dropped from the front of the user aio's vector (nni_aio_set_iov: ascending copy
+   inside one array), the rest is a physical read into the user's buffers.  Repaired code: the
+   vector the physical read gets, and the one the user aio keeps, are exactly the elements not
+   yet used up, whatever the vector and however many elements the buffered bytes consumed. *)
+Theorem http_read_iov_physical_read_gets_the_rest : forall a off, (off <= length a)%nat ->
+  rd_vector true a off = skipn off a /\ user_vector a off = skipn off a.
+Proof. intros a off H. split; [exact (rd_vector_fixed a off H)|exact (user_vector_spec a off H)]. Qed.
+Print Assumptions http_read_iov_physical_read_gets_the_rest.
+(* the code as pinned passed the pointer from before the copy: with one element used up and two
+   left, the physical read got the LAST element twice -- the body ABCDEFGHIJKL read into three
+   elements of 4 with 6 bytes buffered arrives as ABCD / EF?? / KLIJ with count 12 and no error *)
+Theorem http_read_iov_stale_pointer_pinned_refuted :
+  (1 <= length w_vec)%nat /\ rd_vector false w_vec 1 <> skipn 1 w_vec /\
+  http_read_full false w_body 6 [4; 4; 4]%nat = ([[65; 66; 67; 68]; [69; 70; 238; 238]; [75; 76; 73; 74]]%N, 12%nat).
+Proof.
+  destruct rd_vector_pinned_w as (A & B & C). split; [exact A|]. split; [rewrite B, C; discriminate|exact http_read_full_pinned_w].
+Qed.
+Print Assumptions http_read_iov_stale_pointer_pinned_refuted.
+Example http_read_iov_nonvacuous :
+  http_read_full true w_body 6 [4; 4; 4]%nat = ([[65; 66; 67; 68]; [69; 70; 71; 72]; [73; 74; 75; 76]]%N, 12%nat) /\
+  http_read_full true w_body 5 [2; 3; 7]%nat = ([[65; 66]; [67; 68; 69]; [70; 71; 72; 73; 74; 75; 76]]%N, 12%nat).
+Proof. destruct http_read_full_fixed_w as (A & _ & C). split; assumption. Qed.
 
 (* the line scanner itself: a decision taken on a prefix is never revised *)
 Theorem http_line_scan_restartable : forall a b,
@@ -434,7 +460,7 @@ Print Assumptions codec_consts_match.
    checking, and the probes of checks/c16.py report the defect with a replay. *)
 Theorem codec_current_source_repaired :
   (C16_REQ_PARSE_KEEPS_ERR, C16_STATUS_STRICT, C16_DIALER_COPIES_RECVMAX, C16_DIALER_COPIES_FRAGSIZE,
-   C16_RDBUF_PULLUP_FIRST) = (true, true, true, true, true) /\ (0 < N.to_nat C16_HTTP_BUFSIZE)%nat.
+   C16_RDBUF_PULLUP_FIRST, C16_RDBUF_IOV_REFETCH) = (true, true, true, true, true, true) /\ (0 < N.to_nat C16_HTTP_BUFSIZE)%nat.
 Proof. split; [reflexivity|]. apply Nat.ltb_lt. vm_compute. reflexivity. Qed.
 Print Assumptions codec_current_source_repaired.
 
